@@ -232,6 +232,8 @@ func init() {
 				Bound: "all edge lists with <=4 edges x {greedy,dfs} x {ns,lp} x 9 positioners x {noop,polyline} x {fixed,per-node} sizes x spacings {(4,8),(0,8)}"},
 			{Name: "G5-cheap-tail", Space: spaceG(5, 5, 0, nil), Eval: stdEval("C03", staticGrid(cheap), or),
 				Bound: "all edge lists with 5 edges x {greedy,dfs} x {ns,lp} x valign x {fixed,per-node} sizes x 2 spacings"},
+			{Name: "G6n4", Space: spaceG(6, 6, 4, nil), Eval: stdEval("C03", staticGrid(gridSpec{P1: allP1, P2: allP2, P4: []int{1}, P5: []int{0}, SZ: []int{2}}.list()), or),
+				Bound: "all edge lists with 6 edges on <=4 nodes (dense, cyclic multigraphs) x {greedy,dfs} x {ns,lp} x valign x per-node sizes"},
 			{Name: "G4-random-greedy", Space: spaceG(1, 4, 0, func(in Input, a *Analysis) bool { return !a.DAG }), Eval: stdEval("C03", staticGrid(rnd), or),
 				Bound: "all cyclic edge lists with <=4 edges x greedy-random with every RNG answer sequence x {ns,lp}"},
 			{Name: "D(6,7)", Space: spaceD(6, 5, 7, false), Eval: stdEval("C03", staticGrid(gridSpec{P1: []int{0}, P2: allP2, P4: []int{1}, P5: []int{0}, SZ: []int{1}}.list()), or),
